@@ -157,7 +157,7 @@ impl<C: Suite> Model for M01<C> {
         let msg = &self.message(st.k, st.m);
         let devs = (st.sk_c != SkCodec::Plain(Codec::None)) as u8 + (st.pk_c != Codec::None) as u8 + (st.sig_c != Codec::None) as u8;
         o.nontrivial = true;
-        let sk0 = match guard(|| sk_from_be::<C>(kb)) {
+        let sk0 = match guard(|| sk_import_be::<C>(kb)) {
             Ok(Some(sk)) => sk,
             Ok(None) => {
                 o.expect(&format!("C01:import-nonzero-key:{}", g), false, "Some", "None");
@@ -169,6 +169,7 @@ impl<C: Suite> Model for M01<C> {
             }
         };
         o.calls(1);
+        o.expect(&format!("C01:import-equals-field-element:{}", g), Some(&sk0) == sk_from_be::<C>(kb).as_ref(), "the scalar the bytes encode", "another scalar");
         let sk = match guard(|| match st.sk_c {
             SkCodec::Plain(c) => transport_sk::<C>(&sk0, c),
             SkCodec::Enum(c) => transport_sk_enum::<C>(&sk0, c),
